@@ -247,7 +247,7 @@ def p3_compact(out, hook_clauses, ops_clauses, known_clause=None):
 def expect_violation(out, spec, cfg, invariant):
     """A configuration that must produce a counter-example (the model-level witness of a known
     finding).  Its absence is a specification regression (tool error)."""
-    cache = WORK / "cache"
+    cache = core.CACHE
     cache.mkdir(parents=True, exist_ok=True)
     marker = cache / (core.spec_hash(MC / (cfg + ".cfg")) + "_" + cfg + ".witness")
     if not marker.exists():
